@@ -245,3 +245,58 @@ func ZZ_C0405_Par() {
 	c.CleanUp()
 	zzQuiescentAudit(c, tag, tag == "c04", tag == "c05")
 }
+
+func init() { vRegister("ZZ_C05_ReadVsSweep", ZZ_C05_ReadVsSweep) }
+
+// ZZ_C05_ReadVsSweep: access-reset expiry; a read (or SetExpiresAfter) that extends the entry's lifetime races with the
+// maintenance run that finds the entry's timer due (the other thread moves the clock past the deadline and calls
+// CleanUp). Whoever wins, at quiescence the table, the eviction deques, the timer wheel and the counters agree
+// (an entry that survived is still tracked by both policies, an entry that was expired is gone from all of them).
+func ZZ_C05_ReadVsSweep() {
+	rop := vChoice("reader", 3)
+	vScenario([]string{"GetIfPresent", "GetEntry", "SetExpiresAfter"}[rop])
+	clkm := &zzAClock{}
+	clkm.now.Store(1 << 32)
+	const life = 2_000_000_000
+	c := Must(&Options[int, int]{
+		Logger:           &NoopLogger{},
+		MaximumSize:      10,
+		Clock:            clkm,
+		ExpiryCalculator: ExpiryAccessing[int, int](life),
+		Executor:         func(fn func()) { fn() },
+	})
+	vDaemons()
+	c.Set(1, 100)
+	c.Set(2, 200)
+	c.CleanUp()
+	clkm.now.Add(1_000_000_000) // one second later both entries are alive
+	c.GetIfPresent(2)           // key 2 is extended and stays alive throughout
+	c.CleanUp()
+	var rv int
+	var rok bool
+	A := func() {
+		switch rop {
+		case 0:
+			rv, rok = c.GetIfPresent(1)
+		case 1:
+			var e Entry[int, int]
+			e, rok = c.GetEntry(1)
+			rv = e.Value
+		case 2:
+			c.SetExpiresAfter(1, 5_000_000_000)
+		}
+	}
+	B := func() {
+		clkm.now.Add(1_100_000_000) // key 1's original deadline has passed
+		c.CleanUp()
+	}
+	vPar(A, B)
+	if rok {
+		vAssert(rv == 100, "c05r.read_returns_the_cached_value")
+	}
+	c.CleanUp()
+	c.CleanUp()
+	_, ok2 := c.GetEntryQuietly(2)
+	vAssert(ok2, "c05r.untouched_live_entry_survives")
+	zzQuiescentAudit(c, "c05r", false, true)
+}
